@@ -135,6 +135,15 @@ func (b *bodyClassifier) isConstExpr(e ast.Expr) bool {
 	return false
 }
 
+func (b *bodyClassifier) mentionsLocal(e ast.Node) bool {
+	for v := range b.locals {
+		if mentionsIdent(e, v) {
+			return true
+		}
+	}
+	return false
+}
+
 func (b *bodyClassifier) mentionsLoopVar(e ast.Node) bool {
 	for _, v := range b.loopVars {
 		if mentionsIdent(e, v) {
@@ -429,7 +438,19 @@ func (b *bodyClassifier) exprStmt(e ast.Expr) {
 	// written in place, with its parameters standing for values of the current element
 	if body, params := b.calleeBody(call); body != nil && b.depth < 2 {
 		inner := &bodyClassifier{site: b.site, info: b.info, fset: b.fset, depth: b.depth + 1, locals: map[string]bool{}}
-		inner.loopVars = append(append([]string{}, b.loopVars...), params...)
+		inner.loopVars = append([]string{}, b.loopVars...)
+		// a parameter stands for a value of the current element only when the argument bound
+		// to it is one (mentions a loop variable or a variable declared in the loop body); the
+		// receiver (listed after the parameters) is bound to the selector's operand
+		args := append([]ast.Expr{}, call.Args...)
+		if sel, ok := call.Fun.(*ast.SelectorExpr); ok && len(params) == len(call.Args)+1 {
+			args = append(args, sel.X)
+		}
+		for i, pn := range params {
+			if i < len(args) && (b.mentionsLoopVar(args[i]) || b.mentionsLocal(args[i])) {
+				inner.loopVars = append(inner.loopVars, pn)
+			}
+		}
 		inner.block(body.List)
 		return
 	}
@@ -439,11 +460,17 @@ func (b *bodyClassifier) exprStmt(e ast.Expr) {
 // calleeBody: the body of the function literal a call statement invokes through a local
 // variable, or of a package-level function of the same package; with its parameter names.
 func (b *bodyClassifier) calleeBody(call *ast.CallExpr) (*ast.BlockStmt, []string) {
-	id, ok := call.Fun.(*ast.Ident)
-	if !ok {
-		return nil, nil
+	var obj types.Object
+	switch fun := call.Fun.(type) {
+	case *ast.Ident:
+		obj = b.info.Uses[fun]
+	case *ast.SelectorExpr:
+		// a method of the same package, called on a value of the current element
+		obj = b.info.Uses[fun.Sel]
+		if fn, isFn := obj.(*types.Func); !isFn || fn.Pkg() == nil || fn.Pkg() != b.site.pkg.Types {
+			return nil, nil
+		}
 	}
-	obj := b.info.Uses[id]
 	if obj == nil {
 		return nil, nil
 	}
@@ -475,8 +502,15 @@ func (b *bodyClassifier) calleeBody(call *ast.CallExpr) (*ast.BlockStmt, []strin
 					}
 				}
 			case *ast.FuncDecl:
-				if b.info.Defs[x.Name] == obj && x.Recv == nil && x.Body != nil {
+				if b.info.Defs[x.Name] == obj && x.Body != nil {
 					body, params = x.Body, names(x.Type)
+					if x.Recv != nil {
+						for _, f := range x.Recv.List {
+							for _, n := range f.Names {
+								params = append(params, n.Name)
+							}
+						}
+					}
 				}
 			}
 			return true
